@@ -27,7 +27,21 @@ type MayPanic struct {
 	Trusted map[string]string // callee short name (or "pkgpath.*") -> reason it cannot panic on these inputs
 	// NonNil: "func:var" -> reason the pointer variable cannot be nil there.
 	NonNil map[string]string
-	Min    int
+	// IndexOK: "func:expr" -> reason an index expression is in range.
+	IndexOK map[string]string
+	// CheckAlloc also treats make(T, n) with a non-constant n that is not the
+	// length of an existing value as a site (unbounded allocation).
+	CheckAlloc bool
+	// Recovered: functions that only run below a recover() frame (a panic there
+	// is caught and the input dropped); sites in them are listed but discharged.
+	Recovered map[string]string
+	// TrustFn decides callees by a rule instead of by name (e.g. generated getters).
+	TrustFn func(r *Run, fn *types.Func) (string, bool)
+	// SkipNilDeref leaves field access / dereference through pointers out (stated as not covered by the caller).
+	SkipNilDeref bool
+	// Known: functions decided by another instance of the rule (calls to them are fine).
+	Known []string
+	Min   int
 }
 
 func (mp MayPanic) trusted(name string) (string, bool) {
@@ -47,6 +61,9 @@ func (mp MayPanic) Check(r *Run) {
 	for _, f := range mp.Funcs {
 		inScope[f] = true
 	}
+	for _, f := range mp.Known {
+		inScope[f] = true
+	}
 	total := 0
 	for _, name := range mp.Funcs {
 		f := r.Fn(name)
@@ -54,6 +71,22 @@ func (mp MayPanic) Check(r *Run) {
 			continue
 		}
 		total += mp.checkFunc(r, f, inScope)
+		for _, cl := range f.Closures() {
+			// literals run as part of their function (or as goroutines it starts): same scope, same frame assumptions
+			startedAsGoroutine := false
+			if call, ok := r.W.Parent(cl.Lit).(*ast.CallExpr); ok {
+				if _, isGo := r.W.Parent(call).(*ast.GoStmt); isGo {
+					startedAsGoroutine = true // a new goroutine is not under its creator's recover frame
+				}
+			}
+			if rec, ok := mp.Recovered[f.Name]; ok && mp.Recovered[cl.Name] == "" && !startedAsGoroutine {
+				if mp.Recovered == nil {
+					mp.Recovered = map[string]string{}
+				}
+				mp.Recovered[cl.Name] = rec
+			}
+			total += mp.checkFunc(r, cl, inScope)
+		}
 	}
 	if total < mp.Min {
 		r.Fail("may-panic sites", "-", fmt.Sprintf("expected ≥%d sites in scope, found %d", mp.Min, total))
@@ -183,6 +216,9 @@ func (mp MayPanic) checkFunc(r *Run, f *FuncInfo, inScope map[string]bool) int {
 		n++
 		occ[kind]++
 		label := fmt.Sprintf("%s: %s #%d `%s` cannot panic", f.Name, kind, occ[kind], ExprStr(x))
+		if rec, isRec := mp.Recovered[f.Name]; !ok && isRec && kind != "allocation" {
+			ok, why = true, "a panic here is caught: "+rec+" (the input is dropped) — "+why
+		}
 		if ok {
 			r.OK(label, r.W.Pos(x.Pos()), why)
 		} else {
@@ -231,6 +267,19 @@ func (mp MayPanic) checkFunc(r *Run, f *FuncInfo, inScope map[string]bool) int {
 			t := c.Info.TypeOf(e.X)
 			if t == nil {
 				return true
+			}
+			if e.High != nil && e.Low == nil && e.Max == nil {
+				// x[:cap(x)] and x[:len(x)] are always in range
+				if hc, ok := ast.Unparen(e.High).(*ast.CallExpr); ok && len(hc.Args) == 1 && CanonExpr(c, hc.Args[0]) == CanonExpr(c, e.X) &&
+					(IsBuiltinCall(c.Info, hc, "cap") || IsBuiltinCall(c.Info, hc, "len")) {
+					report("slice", e, true, "x[:cap(x)] / x[:len(x)] cannot be out of range")
+					return true
+				}
+				// x[:0]
+				if tv, ok := c.Info.Types[e.High]; ok && tv.Value != nil && constant.Sign(tv.Value) == 0 {
+					report("slice", e, true, "x[:0]")
+					return true
+				}
 			}
 			if e.High != nil || e.Max != nil {
 				report("slice", e, false, "slice expression with an upper bound: no guard shape recognised")
@@ -283,7 +332,13 @@ func (mp MayPanic) checkFunc(r *Run, f *FuncInfo, inScope map[string]bool) int {
 				}
 				report("index", e, false, "array index not a constant inside the bounds")
 			default:
-				report("index", e, false, "index into a slice/string without a recognised bounds guard")
+				if why, ok := mp.IndexOK[f.Name+":"+ExprStr(e)]; ok {
+					report("index", e, true, "frozen: "+why)
+				} else if ok, why := indexGuarded(r, fl, e); ok {
+					report("index", e, true, why)
+				} else {
+					report("index", e, false, "index into a slice/string without a recognised bounds guard (range over the same slice, or a dominating comparison of the index with its length)")
+				}
 			}
 		case *ast.TypeAssertExpr:
 			if e.Type == nil {
@@ -295,6 +350,10 @@ func (mp MayPanic) checkFunc(r *Run, f *FuncInfo, inScope map[string]bool) int {
 				return true
 			}
 			if vs, ok := par.(*ast.ValueSpec); ok && len(vs.Names) == 2 {
+				return true
+			}
+			if why, ok := mp.IndexOK[f.Name+":"+ExprStr(e)]; ok {
+				report("type assertion", e, true, "frozen: "+why)
 				return true
 			}
 			report("type assertion", e, false, "single-value type assertion panics on a mismatch")
@@ -313,10 +372,57 @@ func (mp MayPanic) checkFunc(r *Run, f *FuncInfo, inScope map[string]bool) int {
 				report("panic", e, false, "explicit panic reachable from the entry point")
 				return true
 			}
+			if mp.CheckAlloc && IsBuiltinCall(c.Info, e, "make") && len(e.Args) >= 2 {
+				for _, sz := range e.Args[1:] {
+					if tv, ok := c.Info.Types[sz]; ok && tv.Value != nil {
+						continue
+					}
+					if ok, why := sizeBounded(fl, e, sz); ok {
+						report("allocation", e, true, why)
+					} else {
+						report("allocation", e, false, fmt.Sprintf("the size `%s` is neither the length of an existing value nor behind an upper-bound test: a count declared by a peer makes the runtime reserve that much memory (out-of-memory is fatal, recover() does not help)", ExprStr(sz)))
+					}
+				}
+				return true
+			}
 			fn := Callee(c.Info, e)
 			if fn == nil {
 				// conversion or builtin or dynamic call
 				if tv, ok := c.Info.Types[e.Fun]; ok && (tv.IsType() || tv.IsBuiltin()) {
+					return true
+				}
+				// a local variable holding a function literal of this function (its body is scanned with it),
+				// or a cancel function obtained from the context package
+				if id, ok := ast.Unparen(e.Fun).(*ast.Ident); ok {
+					if o := c.Info.ObjectOf(id); o != nil {
+						defs := c.DefsOf(o)
+						all := len(defs) > 0
+						why := "local closure of this function (its body is scanned as part of it)"
+						for _, d := range defs {
+							if d.Rhs == nil {
+								all = false
+								continue
+							}
+							switch rhs := ast.Unparen(d.Rhs).(type) {
+							case *ast.FuncLit:
+							case *ast.CallExpr:
+								if fn := Callee(c.Info, rhs); fn != nil && fn.Pkg() != nil && fn.Pkg().Path() == "context" {
+									why = "cancel function returned by the context package"
+								} else {
+									all = false
+								}
+							default:
+								all = false
+							}
+						}
+						if all {
+							report("call", e, true, why)
+							return true
+						}
+					}
+				}
+				if why, ok := mp.IndexOK[f.Name+":"+ExprStr(e)]; ok {
+					report("call", e, true, "frozen: "+why)
 					return true
 				}
 				report("call", e, false, "dynamic call: callee unknown")
@@ -328,13 +434,20 @@ func (mp MayPanic) checkFunc(r *Run, f *FuncInfo, inScope map[string]bool) int {
 			}
 			if why, ok := mp.trusted(name); ok {
 				report("call", e, true, "trusted: "+why)
+			} else if why, ok := func() (string, bool) {
+				if mp.TrustFn == nil {
+					return "", false
+				}
+				return mp.TrustFn(r, fn)
+			}(); ok {
+				report("call", e, true, "trusted: "+why)
 			} else {
 				report("call", e, false, fmt.Sprintf("%s is outside the analysed set and not in the trusted table", name))
 			}
 		case *ast.SelectorExpr:
 			// field access through a pointer variable
 			sel := c.Info.Selections[e]
-			if sel == nil || sel.Kind() != types.FieldVal {
+			if sel == nil || sel.Kind() != types.FieldVal || mp.SkipNilDeref {
 				return true
 			}
 			if _, isPtr := c.Info.TypeOf(e.X).Underlying().(*types.Pointer); !isPtr {
@@ -351,7 +464,7 @@ func (mp MayPanic) checkFunc(r *Run, f *FuncInfo, inScope map[string]bool) int {
 				report("pointer field access", e, false, fmt.Sprintf("`%s` may be nil here", id.Name))
 			}
 		case *ast.StarExpr:
-			if _, isPtr := c.Info.TypeOf(e.X).(*types.Pointer); isPtr {
+			if _, isPtr := c.Info.TypeOf(e.X).(*types.Pointer); isPtr && !mp.SkipNilDeref {
 				if tv, ok := c.Info.Types[e]; ok && tv.IsType() {
 					return true
 				}
